@@ -91,6 +91,63 @@ CHECKS = {
         note="Bounds: one suspending stage, one signal, single worker (two-worker statement interleavings are in the race harness when present).",
         design="3/C18",
     ),
+    "C04": dict(
+        text="The claim compare-and-swap and the whole StartStageHandler run symbolically over SymDB (row version a symbolic integer, "
+             "durable status solver-chosen): two claimants in every interleaving the writer lock allows never both succeed; another "
+             "worker's complete handler (duplicate StartStage, upstream completion updating the join bookkeeping) nested between the "
+             "handler's read and its first write never plans the stage twice and never loses the start, for AND / first-of / quorum joins.",
+        note="Bounds: two workers, nesting granularity = one whole handler inside the other's read-to-write window (not arbitrary "
+             "statement interleavings); one join stage with two upstreams. SymDB replaces SQLite and is validated against sqlite3 on every run.",
+        design="3/C04",
+    ),
+    "C07": dict(
+        text="store_stage (plain and transactional, with/without expected phase), upsert_task, store.transaction() and "
+             "retry_on_concurrency_error executed symbolically over SymDB: durable and caller versions are symbolic integers, so the "
+             "verdict covers every pair of versions; two read-modify-write sequences in all four lock-permitted interleavings.",
+        note="Bounds: one stage, <=2 tasks, two writers, one retry round; SymDB instead of SQLite (validated differentially).",
+        design="3/C07",
+    ),
+    "C08": dict(
+        text="The real SqliteQueue / DLQ code executed symbolically over SymDB: deliver_at, locked_until, attempts, max_attempts, "
+             "version and the clock instants are symbolic integers; two pollers (nested and sequential); ack / reschedule / extend / "
+             "move-to-DLQ / sweep / replay / push with a crash (rollback) at the operation's commit against a ghost ledger of identities.",
+        note="Bounds: <=2 queue rows + 1 DLQ row, 200 s time window at ms resolution, attempts <=12; queue max_attempts equals the row's "
+             "(DESIGN O2); SymDB instead of SQLite (validated differentially).",
+        design="3/C08",
+    ),
+    "C09": dict(
+        text="BloomDeduplicator executed symbolically with the two digests of an id as symbolic integers (hashlib stubbed by an arbitrary "
+             "function): no false negative after mark_seen / hydrate for every digest pair within the bound; the duplicate gate of "
+             "_handle_message over all 64 combinations of its inputs; engine level: un-acked redelivery + worker restart / forced "
+             "filter rotation before every delivery step, negative cache off and on, handler invocations counted per message id.",
+        note="Bounds: 15-bit / 44-bit filters, digests < 3*size in the quick tier; real MD5/SHA1 outside; negative cache with a second "
+             "process writing processed_messages is documented unsupported and excluded.",
+        design="3/C09",
+    ),
+    "C11": dict(
+        text="acquire_claim executed symbolically over SymDB for every owner / owner-status / steal combination; two sibling stages "
+             "racing with one handler nested inside the other's read-to-write window (mutex and deferred choice); retention sweep over "
+             "all execution statuses; engine level: delivery schedules of the mutex and choice workloads with the retention sweep "
+             "injected before every step, audit triggers give the set of RUNNING stages per key after every commit.",
+        note="Bounds: two siblings per group, two workers, schedule depth as C02. SymDB instead of SQLite (validated differentially).",
+        design="3/C11",
+    ),
+    "C16": dict(
+        text="get_merged_ancestor_outputs on every DAG with 4 stages and every choice of publishing stages (solver-chosen edge bits), "
+             "_plan_stage's merge (own context / ancestors / reducers) and apply_output_reducers with symbolic branch values under every "
+             "permutation, all executed by CrossHair; engine level: ledger contexts in the C01/C02/C15 explorations.",
+        note="Bounds: <=5 stages; only path-ordered scalar keys asserted; the SELECT feeding the merge is replaced by a row provider in the "
+             "function lemma (the SQL text runs in the engine-level checks).",
+        design="3/C16",
+    ),
+    "C20": dict(
+        text="Workflow.create / validate_stage_graph / topological_sort on every 3-stage graph (duplicate refs, unknown refs, self "
+             "edges, cycles) against a DFS oracle, and _eval_node / evaluate_expression on every depth-2 tree over 12 leaf kinds and "
+             "every node class (plus 14 unsupported constructs), executed by CrossHair; the callers' handling of a failing condition.",
+        note="Bounds: graphs of 3 stages (4 in the thorough tier), expression depth 2 (6 root shapes at depth 3 thorough); text limited "
+             "to what ast.unparse of those trees produces; ast.parse (C) outside.",
+        design="3/C20",
+    ),
 }
 
 NOT_YET = "check not built yet in this round (work in progress); see DESIGN.md section 3 for the planned obligations"
